@@ -226,6 +226,7 @@ package dns
 //@ extern strings.Join
 //@   pure
 //@ extern bytes.Equal
+//@   ensures ret0 == (len(a) == len(b) && (forall k in 0..len(a) :: a[k] == b[k]))
 //@   pure
 //@ extern bytes.Compare
 //@   pure
